@@ -12,6 +12,7 @@ import (
 	"fmt"
 	"io"
 	"math/rand/v2"
+	"runtime"
 	"sync"
 	"sync/atomic"
 	"testing"
@@ -29,7 +30,15 @@ type val struct {
 	closed atomic.Int32
 }
 
-func (v *val) Close() error { v.closed.Add(1); return nil }
+// Close counts; every third value reports that closing it failed (a connection whose shutdown fails): that
+// is the value's own business and changes nothing about the updater's duties.
+func (v *val) Close() error {
+	v.closed.Add(1)
+	if v.id%3 == 0 {
+		return errors.New("injected: closing this value failed")
+	}
+	return nil
+}
 
 type builder struct {
 	mu       sync.Mutex
@@ -93,9 +102,12 @@ func TestC15(t *testing.T) {
 		}
 		lookupRace(t, r)
 		interfaceTyped(r)
+		for i := 0; i < r.N(12, 120); i++ {
+			lifetimes(r, i)
+		}
 	}
 	r.Require("gets_after_install", "gets_without_install", "gets_after_many_installs", "builder_failures", "closes_checked", "updater_created_during_install",
-		"installs_with_failing_cache", "concurrent_gets", "updaters_from_racing_lookups", "interface_typed_updater_gets", "gets_while_failed_build_outstanding")
+		"installs_with_failing_cache", "concurrent_gets", "updaters_from_racing_lookups", "interface_typed_updater_gets", "gets_while_failed_build_outstanding", "updater_lifetime_cases")
 	r.Rule("sequential seeded histories over 2 secrets and up to 5 updaters: installs (0..4 between Gets, sometimes with a failing cache write), updater creation (also while an install lands during its initial build), scripted builder failures, Gets; exact expectations per Get on (builder invoked?, with which bytes, value returned, Err, Close counts). Concurrent runs: 8 Get goroutines vs an installer, judged by call/return stamps. Distinct = (event, installs since last Get capped at 3, builder outcome)")
 }
 
@@ -605,4 +617,75 @@ func interfaceTyped(r *evid.Run) {
 		st.Close()
 		r.Distinct("updater with T = " + kind)
 	}
+}
+
+// lifetimes: several updaters on ONE secret with different lifetimes: some are dropped and collected while
+// others live on, new ones are created in between. Every updater that is still held must see every later
+// install. (Real time and real garbage collections.)
+func lifetimes(r *evid.Run, idx int) {
+	rng := r.Rand(uint64(33_000_000 + idx))
+	r.Eval(1)
+	svc := fakesvc.New()
+	ver := uint32(1)
+	svc.Set("lt", ver, []byte("lt#1"))
+	st, err := setec.NewStore(context.Background(), setec.StoreConfig{Client: svc, Secrets: []string{"lt"}, PollInterval: -1, Logf: func(string, ...any) {}})
+	if err != nil {
+		r.Violation("newstore-fails", idx, err.Error(), nil)
+		return
+	}
+	defer st.Close()
+	mk := func() *setec.Updater[string] {
+		u, err := setec.NewUpdater(context.Background(), st, "lt", func(b []byte) (string, error) { return string(b), nil })
+		if err != nil {
+			r.Violation("updater-fails", idx, err.Error(), nil)
+			return nil
+		}
+		return u
+	}
+	var live []*setec.Updater[string]
+	var births []int
+	nborn := 0
+	var trace []string
+	collect := func() {
+		for k := 0; k < 3; k++ {
+			runtime.GC()
+			time.Sleep(2 * time.Millisecond)
+		}
+	}
+	for step := 0; step < 14; step++ {
+		switch x := rng.IntN(10); {
+		case x < 4 || len(live) < 2:
+			if u := mk(); u != nil {
+				live = append(live, u)
+				births = append(births, nborn)
+				trace = append(trace, fmt.Sprintf("create #%d", nborn))
+				nborn++
+			}
+		case x < 7:
+			k := rng.IntN(len(live)) // drop one (any position: oldest, newest, middle) and let it be collected
+			trace = append(trace, fmt.Sprintf("drop #%d and collect", births[k]))
+			live[k] = nil
+			live = append(live[:k], live[k+1:]...)
+			births = append(births[:k], births[k+1:]...)
+			collect()
+		default:
+			ver++
+			want := fmt.Sprintf("lt#%d", ver)
+			svc.Set("lt", ver, []byte(want))
+			if err := st.Refresh(context.Background()); err != nil {
+				r.Violation("refresh-fails", idx, err.Error(), nil)
+				return
+			}
+			trace = append(trace, "install "+want)
+			for k, u := range live {
+				if got := u.Get(); got != want {
+					r.Violation("update-lost", idx, fmt.Sprintf("lifetime case %d: after %q was installed, the updater created as #%d (still held) returns %q", idx, want, births[k], got), map[string]any{"events": trace})
+					return
+				}
+			}
+		}
+	}
+	r.Count("updater_lifetime_cases", 1)
+	r.Distinct("updater lifetimes")
+	runtime.KeepAlive(live)
 }
